@@ -126,7 +126,7 @@ def run_case(ck, rng, stats, samples):
         templates.append(t)
     m1 = rng.choice([b'macro value', b'mv', b'1.5'])
     use_D = rng.randrange(3) == 0
-    action = rng.choice(['exec', 'exec', 'label', 'addhdr', 'command'])
+    action = rng.choice(['exec', 'exec', 'label', 'addhdr', 'command', 'ncommand'])
     if action == 'addhdr':
         # add-header strings are not expanded at parse time: a default macro there is an error and would be unused
         templates = [templates[0].replace(b'${mac}', b'mac')]
@@ -145,6 +145,9 @@ def run_case(ck, rng, stats, samples):
         rule = b'match %s exec { "%s" %s }' % (cond_text, helper.encode(), strs)
     elif action == 'command':
         rule = b'match %s and command { "%s" %s } flags "T"' % (cond_text, helper.encode(), strs)
+    elif action == 'ncommand':
+        # the same below a negation: the arguments are interpolated from the matches of the rule all the same
+        rule = b'match %s and ! command { "%s" %s } flags "T"' % (cond_text, helper.encode(), strs)
     elif action == 'label':
         rule = b'match %s label { %s }' % (cond_text, strs)
     else:
@@ -200,10 +203,10 @@ def run_case(ck, rng, stats, samples):
         exp_templates_ref.append(t.replace(b'${mac}', m1))
     act_macros_m = '%s:%s' % (hexs(b'path'), hexs(path))
     act_macros_r = {b'path': path}
-    if action == 'command':
+    if action in ('command', 'ncommand'):
         act_macros_m, act_macros_r = '-', {}
     bef = ';'.join(before)
-    if action in ('exec', 'command'):
+    if action in ('exec', 'command', 'ncommand'):
         mres = common.run_lines(model, ['argv %s %s %s' % (','.join(hexs(t) for t in exp_templates_model), act_macros_m, bef)])[0][0]
         mexp = [common.unhexs(x) for x in mres[1:].split(',')] if mres.startswith('S') else None
         rexp = [ref_interp(t, pats, act_macros_r) for t in exp_templates_ref]
@@ -213,7 +216,7 @@ def run_case(ck, rng, stats, samples):
         if calls:
             got = open(os.path.join(hout, calls[0], 'argv'), 'rb').read().split(b'\0')[:-1]
         desc = 'templates %r, headers %r' % (templates, hdrs)
-        if action == 'command' and any(b'${path}' in t for t in templates):
+        if action in ('command', 'ncommand') and any(b'${path}' in t for t in templates):
             sb.cleanup(); return          # ${path} in a condition string is a configuration error (macro used in wrong context)
         judge(ck, stats, 'argv', got, mexp, rexp, rc, desc, rep)
     elif action == 'label':
@@ -279,7 +282,7 @@ def run(ck):
         'distinct_nontrivial': stats['nontrivial'],
         'rule': 'rules with 1-4 header pattern conditions, interleaved in a third of the positions with conditions that are not patterns (date modified / created, new, all, ! old) (5 pattern shapes with capture groups, flags i/l/u) over header values from an alphabet containing '
                 '\\\\ digits . $ { } and ready-made \\\\1, \\\\0.1, ${path}, ${mac}; 1-3 templates mixing literals, \\\\N, \\\\M.N, \\\\N\\\\., ${path}, ${mac} '
-                '(-D override in a third of the cases); action exec / command / label / add-header; non-trivial = the rule fires and the reference '
+                '(-D override in a third of the cases); action exec / command / ! command / label / add-header; non-trivial = the rule fires and the reference '
                 'interpolation succeeds; counted per run',
         'samples': samples,
         'traces_validated_against_impl': stats['evals'],
